@@ -2,6 +2,19 @@
 
 use std::time::SystemTime;
 
+/// Named synchronisation point (verification hook H2): expands to nothing unless the
+/// `verif-hooks` feature is on, in which case it calls the harness-installed callback.
+#[cfg(feature = "verif-hooks")]
+macro_rules! sync_point {
+    ($name:expr, $obj:expr) => {
+        crate::util::verif_hooks::sync_point_at($name, $obj as *const _ as *const () as usize)
+    };
+}
+#[cfg(not(feature = "verif-hooks"))]
+macro_rules! sync_point {
+    ($name:expr, $obj:expr) => {};
+}
+
 #[allow(dead_code)]
 mod bits;
 mod bloom_filter;
@@ -26,6 +39,32 @@ pub mod verif_hooks {
     //! Add-only re-exports of crate-private items for the verification harness.
     pub use super::bits::{lshift, rshift, Bits};
     pub use super::var_int::{read as var_int_read, size as var_int_size, write as var_int_write};
+
+    /// Callback installed by the verification harness: (sync point name, address of the lock object).
+    pub type SyncHook = fn(&'static str, usize);
+    static SYNC_HOOK: std::sync::RwLock<Option<SyncHook>> = std::sync::RwLock::new(None);
+
+    /// Installs (or with `None` removes) the callback called at every named synchronisation point
+    /// placed before and after the lock / condition-variable operations of rx.rs, future.rs, latch.rs.
+    pub fn set_sync_hook(hook: Option<SyncHook>) {
+        *SYNC_HOOK.write().unwrap() = hook;
+    }
+
+    /// A named synchronisation point on the lock object at address `obj`; no-op unless a hook is installed.
+    pub fn sync_point_at(name: &'static str, obj: usize) {
+        let hook = *SYNC_HOOK.read().unwrap();
+        if let Some(hook) = hook {
+            hook(name, obj);
+        }
+    }
+
+    /// A named synchronisation point not tied to a particular lock object.
+    pub fn sync_point(name: &'static str) {
+        sync_point_at(name, 0);
+    }
+
+    /// Which publication algorithm rx.rs implements (read by the harness to pick the model instance).
+    pub const RX_ALGO: &str = "snapshot";
 }
 // #[allow(dead_code)]
 pub use self::bloom_filter::{
